@@ -286,3 +286,30 @@ def amplification(c, b):
     sol = np.linalg.pinv(mat, rcond=1e-15) @ rh
     zp = np.concatenate([b.z, np.zeros(mat.shape[0] - len(b.z))])
     return float(np.max(np.sum(np.abs(zp[:, None] * sol), axis=0))), float(np.max(np.sum(np.abs(rh * sol), axis=0)))
+
+
+def refresh_with_changed_model(c, b, rng):
+    """In-place change of the model of a built Krige followed by the documented refresh `set_condition()`.
+    Returns the case description of the changed setup (for the oracle)."""
+    md = dict(c["model"])
+    model = b.model
+    dim = md["dim"]
+    with warnings.catch_warnings():
+        warnings.simplefilter("ignore")
+        if not c["geo"].startswith("latlon") and dim > 1:
+            md["anis"] = [round(float(v), 4) for v in np.exp(rng.uniform(-1.2, 1.2, size=dim - 1))]
+            md["angles"] = [round(float(v), 4) for v in rng.uniform(-3, 3, size=dim * (dim - 1) // 2)]
+            model.anis = md["anis"]
+            model.angles = md["angles"]
+        elif c["geo"] == "latlon_temporal":
+            md["anis"] = [round(float(np.exp(rng.uniform(-1, 1))), 3)]
+            model.anis = [1.0, 1.0, md["anis"][0]]
+        md["len_scale"] = round(md["len_scale"] * float(rng.uniform(0.6, 1.6)), 4)
+        model.len_scale = md["len_scale"]
+        md["var"] = round(float(rng.uniform(0.5, 2.5)), 3)
+        model.var = md["var"]
+        b.krige.set_condition()
+    c2 = dict(c, model=md)
+    if c["cond_err"] == "nugget":
+        b.cond_err = md["nugget"]
+    return c2
